@@ -381,7 +381,8 @@ class Template:
                         _compile_module_file(
                             self, data, filename, path, self.module_writer
                         )
-                module = compat.load_module(self.module_id, path)
+                with _hold_warnings() as held:
+                    module = compat.load_module(self.module_id, path)
                 if (
                     module._magic_number != codegen.MAGIC_NUMBER
                     # generated from some other file that was served under
@@ -389,12 +390,22 @@ class Template:
                     or getattr(module, "_template_filename", filename)
                     != filename
                 ):
+                    # the warnings of a module that is replaced are of no
+                    # interest, the new one raises its own.  a "once" filter
+                    # has recorded them as seen; remove that record
+                    for message, category in [w[0:2] for w in held]:
+                        warnings.onceregistry.pop(
+                            (str(message), category), None
+                        )
+                    del held[:]
                     data = self._read_source(filename)
                     with _drop_expression_warnings():
                         _compile_module_file(
                             self, data, filename, path, self.module_writer
                         )
                     module = compat.load_module(self.module_id, path)
+                for warning in held:
+                    warnings.showwarning(*warning)
 
             ModuleInfo(module, path, self, filename, None, None, None)
         else:
@@ -746,6 +757,25 @@ def _show_warnings_as(locate):
     warnings.showwarning = _show
     try:
         yield
+    finally:
+        warnings.showwarning = show_warning
+
+
+@contextlib.contextmanager
+def _hold_warnings():
+    """Hold back the display of warnings raised within the block; they are
+    collected, in the form of the arguments of ``warnings.showwarning``, in
+    the list that is yielded."""
+
+    show_warning = warnings.showwarning
+    held = []
+
+    def _show(message, category, filename, lineno, file=None, line=None):
+        held.append((message, category, filename, lineno, file, line))
+
+    warnings.showwarning = _show
+    try:
+        yield held
     finally:
         warnings.showwarning = show_warning
 
